@@ -211,7 +211,7 @@ func dominoBoard(r *RNG, size int) *tak.Position {
 }
 
 func genC09(c *Ctx) {
-	n := c.Scale(1400, 320000)
+	n := c.Scale(1400, 200000)
 	const nslots = 6
 	for k := 0; k < n; k++ {
 		c.Emit(fmt.Sprintf("case %d", k))
